@@ -2,10 +2,11 @@
 import QExPy.Driver.Json
 import QExPy.Driver.Expr
 import QExPy.Driver.Arrays
+import QExPy.Driver.Plot
 namespace QExPy.Drv
 open Lean
 
 def allCmds : List (String × (Json → R Json)) :=
-  exprCmds ++ arraysCmds
+  exprCmds ++ arraysCmds ++ plotCmds
 
 end QExPy.Drv
